@@ -304,6 +304,8 @@ gwf.map(Klass(), ['1'])
 gwf.map(tpl, ['n1'], name='named')
 gwf.map(tpl, [{'x': 'f1'}], name=lambda idx, t: 'fn_%%d' %% idx)
 gwf.target('consumer', inputs=['out/b.res', 'out/direct.res'], outputs=['out/final.res']) << 'echo final'
+# a template living in a sub-directory of the workflow's directory that reaches UP with a leading '..'
+gwf.target_from_template('up', AnonymousTarget(inputs=['../out/direct.res', './../in/a.txt'], outputs=['../out/up.res'], options={}, spec='echo up', working_dir=%(updir)r))
 '''
 
 
@@ -323,7 +325,8 @@ def build_project(case, base):
     if case["tpl_wd"] == "explicit":
         tplwd = ", working_dir=%r" % tplwd_dir
         tpl_wd = tplwd_dir
-    src = WF_TEMPLATE % {"wfkw": wfkw, "tplwd": tplwd, "items": case["items"]}
+    os.makedirs(os.path.join(wf_wd, "updir"), exist_ok=True)
+    src = WF_TEMPLATE % {"wfkw": wfkw, "tplwd": tplwd, "items": case["items"], "updir": os.path.join(wf_wd, "updir")}
     fname = "workflow.py"
     if case.get("custom"):
         src = src.replace("gwf = Workflow(", "wf = Workflow(").replace("\ngwf.", "\nwf.")
@@ -341,7 +344,7 @@ def build_project(case, base):
                 f.write(x)
             os.utime(p, ns=(gen.BASE_T * 10**9, gen.BASE_T * 10**9))
     # expected outputs
-    exp = {os.path.join(wf_wd, "out/direct.res"), os.path.join(wf_wd, "out/final.res")}
+    exp = {os.path.join(wf_wd, "out/direct.res"), os.path.join(wf_wd, "out/final.res"), os.path.join(wf_wd, "out/up.res")}
     for x in ["b", "k1", "n1", "f1"] + items:
         exp.add(os.path.join(tpl_wd, "out", x + ".res"))
     consumer_dep_ok = tpl_wd == wf_wd  # consumer reads out/b.res relative to the workflow dir
@@ -350,7 +353,8 @@ def build_project(case, base):
         with open(p, "w") as f:
             f.write("src")
         os.utime(p, ns=(gen.BASE_T * 10**9, gen.BASE_T * 10**9))
-    return root, {"expected_outputs": exp, "wf_wd": wf_wd, "tpl_wd": tpl_wd}
+    exp_deps = {"consumer": ["direct", "fromtpl"] if consumer_dep_ok else ["direct"], "up": ["direct"], "direct": [], "fromtpl": []}
+    return root, {"expected_outputs": exp, "wf_wd": wf_wd, "tpl_wd": tpl_wd, "expected_deps": exp_deps}
 
 
 def run_where(case):
@@ -402,6 +406,8 @@ def run_where(case):
             # absolute oracle
             if obs["info_rc"] != 0 or obs["status_rc"] != 0 or obs["touch_rc"] != 0 or obs["config_rc"] != 0:
                 res.violation("where-command-fails", "invoked from %s (%s): a command failed: info %s status %s config %s touch %s; %s" % (dkind, case["tpl_wd"], obs["info_rc"], obs["status_rc"], obs["config_rc"], obs["touch_rc"], str(obs["info"])[:300] if isinstance(obs["info"], str) else ""), case=case)
+            elif isinstance(obs["info"], dict) and {k: obs["info"].get(k, [None])[0] for k in info["expected_deps"]} != info["expected_deps"]:
+                res.violation("where-graph-wrong", "invoked from %s: dependencies reported by gwf info %s; the files named relative to the working directories give %s" % (dkind, {k: obs["info"].get(k, [None])[0] for k in info["expected_deps"]}, info["expected_deps"]), case=case)
             elif created != exp_created:
                 res.violation("where-relative-to-cwd", "invoked from %s: touch created %s; relative to the workflow's working directory the outputs are %s" % (dkind, created, exp_created), case=case)
             if obs["gwf_dirs"] != ["proj/.gwf/"]:
